@@ -1673,8 +1673,11 @@ def optimal_cost_value(variable: Variable, mode: str):
     """
     if hasattr(variable, "cost_for_val"):
         opt_func = min if mode == "min" else max
+        # Compare on the cost only: on a cost tie, values of different
+        # types (e.g. a domain like ['auto', 1, 2.5]) cannot be ordered.
         best_cost, best_value = opt_func(
-            (variable.cost_for_val(value), value) for value in variable.domain
+            ((variable.cost_for_val(value), value) for value in variable.domain),
+            key=lambda cost_value: cost_value[0],
         )
     else:
         best_value, best_cost = random.choice(variable.domain), None
